@@ -103,7 +103,9 @@ bounded('C19',
         TECH_B)
 
 bounded('C09',
-        'Bounded (not a proof): over all callable shapes, call forms (positional/keyword spellings, every keyword order, defaults '
+        'Level-A part (pyvc, counted in coverage.obligations): the real keymap.encode/encrypt, 8 configurations x call shapes with <=2 positional '
+        'and <=2 keyword arguments, symbolic values: the key does not depend on the insertion order of the keyword dict and equals its '
+        'specification (98 obligation instances). Bounded (not a proof): over all callable shapes, call forms (positional/keyword spellings, every keyword order, defaults '
         'spelled out or omitted) and 52 keymap configurations of the stated scope, calls for which CPython binds the same values to '
         'the same parameters get equal keys from the real key path keymap(*_keygen(f, (), *args, **kwds)).',
         'DESIGN.md 5 C09, 3.8',
